@@ -81,6 +81,60 @@ prop('C07',
                      'The oracle is the exact pair of value and error sequences plus closure, so loss, duplication, reordering and hangs are all visible.'),
          level_note='exhaustive only for n <= bound and the five canonical consumer scripts; schedules beyond are sampled'))
 
+prop('C08',
+     level='exploration',
+     rule=('generated: capacity 0..4 x scripts of up to 40 moves over pipe.New (send, bursts of 1..8 and occasionally 50..200 sends by one chained producer so that values are 1,2,3,... in send order, '
+           'try-receive, drain-to-empty) ending by class: cancel by the harness, cancel with a backlog just sent, sends racing the cancel inside one batch, close of the send side with a backlog; '
+           'oracle: FIFO model of the sends that completed: at every quiescent point every started send has returned (a send never waits for the receiver), received values are exactly 1,2,3,..., '
+           'the receive side never closes before cancel/close, and after cancel or close-by-sender a full drain yields every completed send and then "closed"; process survives (journal), bubble ends (no leak); '
+           'non-trivial = backlog >= 2 at some quiescent point and (the stream ends with a backlog / racing sends, or the queue drained to empty and refilled at least twice); distinct = different canonical scenario'),
+     assumptions=E3_ASSUME + ['no send is started after a completed cancel (the library closes the send side on cancel by design); a send racing the cancel may complete, give up or hit the closed channel - only completed sends enter the model'],
+     parts=[
+         dict(name='rapid', engine='E3', pkg='pipes', test='TestC08',
+              quick=dict(cases=6000, shards=4), thorough=dict(cases=100000, shards=16, timeout=3000)),
+     ],
+     manifest=dict(
+         engine='E3', design_ref='3/E3, 4/C08',
+         technique='model-based property testing (rapid) of send/receive/cancel/close histories against a FIFO of completed sends, in synctest bubbles',
+         level_text=('Histories of sends, receives, cancel and close-by-sender with every capacity against a FIFO model, with the "never blocks the sender" clause decided at quiescent points '
+                     'and the end-of-stream clauses decided by a full drain; backlog sizes up to hundreds exercise the node pool.'),
+         level_note='schedules sampled; one sender goroutine chain (send order is total)'))
+
+prop('C11',
+     level='exploration',
+     rule=('generated: Emit (pure / try / lift with failing indices) and Unfold (pure / lift) x capacity 0..4 x function family x frequency 1..3 units of {1ns, 1ms, 1s} x consumer either always ready or with a pattern of '
+           '(idle gap, reads) x optional cancel at a drawn virtual time; executed with goroutine actors on the virtual clock of a synctest bubble; oracle: received values are a prefix of the exact successive sequence, errors a prefix of the failing indices, '
+           'Emit: consecutive calls of f at least one frequency apart, call i not before i ticks, value j not received before j ticks, f called with 0,1,2,...; an always-ready consumer without faults receives values exactly one frequency apart; '
+           'the stage keeps producing until cancelled (bounded virtual wait); after cancel both channels close and the bubble ends; '
+           'non-trivial = >= 3 values received and (capacity < received or an idle gap of >= 2 ticks); distinct = different canonical scenario'),
+     assumptions=E3_ASSUME + ['pacing is checked on the virtual clock, i.e. the logic of sleeping, not scheduler latency'],
+     parts=[
+         dict(name='rapid', engine='E3', pkg='pipes', test='TestC11',
+              quick=dict(cases=5000, shards=4), thorough=dict(cases=80000, shards=16, timeout=3000)),
+     ],
+     manifest=dict(
+         engine='E3', design_ref='3/E3, 4/C11',
+         technique='property-based testing (rapid) with consumer actors on a synctest virtual clock; exact-sequence and exact-timestamp oracles',
+         level_text='Consumer schedules, capacities, frequencies and cancel times are generated; because the clock is virtual, pacing assertions are exact arithmetic on timestamps instead of flaky wall-clock bounds.',
+         level_note='virtual time only; frequencies from three magnitudes'))
+
+prop('C13',
+     level='exploration',
+     rule=('generated: ops 1..5 x interval 1..4 units of {1ms, 1s, 7ns} x input capacity 0..3 x 0..30 elements x scenario class (saturated: input always available and consumer always ready; consumer stalls for 2..10 intervals then drains; '
+           'input pauses for 2..10 intervals then bursts; random arrival and consumer patterns) x optional cancel at a drawn time; actors on a synctest virtual clock; oracle: delivered == input in order, closed at the end; for every delivery time t before the cancel the '
+           'half-open window [t, t+interval) holds at most 2*ops+1+c deliveries; saturated class: element i delivered within [floor(i/ops)*interval, +interval]; completion within a generous virtual budget; '
+           'non-trivial = at least 2*ops+1 elements and (an idle period of >= 2 intervals followed by a burst, or saturated with ops >= 2); distinct = different canonical scenario'),
+     assumptions=E3_ASSUME + ['rate bound as stated by the property (2*ops+1+c per interval window), timestamps taken at the consumer'],
+     parts=[
+         dict(name='rapid', engine='E3', pkg='pipes', test='TestC13',
+              quick=dict(cases=5000, shards=4), thorough=dict(cases=60000, shards=16, timeout=3000)),
+     ],
+     manifest=dict(
+         engine='E3', design_ref='3/E3, 4/C13',
+         technique='property-based testing (rapid) with producer/consumer actors on a synctest virtual clock; sliding-window rate oracle and exact saturated-timing bounds',
+         level_text='Arrival and consumption patterns with idle periods and bursts are generated and the rate bound is evaluated on exact virtual timestamps for every window; the suite checks one wall-clock duration.',
+         level_note='virtual time only'))
+
 prop('C12',
      level='exploration',
      rule=('generated: k in {0,1,2,3,4,5,9,12} inputs of 0..6 tagged elements (input*1000+seq), capacities 0..3 each, scripts of up to 40+4k moves interleaving sends/bursts/closes on all inputs and receives; '
